@@ -110,15 +110,11 @@ def evalIntBin (op : BinOp) (bits : Nat) (signed : Bool) (a b : Int) : M Val :=
 
 /-! ### store -/
 
-def newCell (v : Val) : M Nat := do
-  let s ← get
-  set { s with cells := s.cells.push v }
-  pure s.cells.size
+def newCell (v : Val) : M Nat :=
+  modifyGet fun s => (s.cells.size, { s with cells := s.cells.push v })
 
-def newDyn (es : List Val) : M Nat := do
-  let s ← get
-  set { s with dyns := s.dyns.push es }
-  pure s.dyns.size
+def newDyn (es : List Val) : M Nat :=
+  modifyGet fun s => (s.dyns.size, { s with dyns := s.dyns.push es })
 
 def emit (line : String) : M Unit := modify fun s => { s with out := s.out.push line }
 
@@ -354,9 +350,8 @@ def evalE (ctx : Ctx) : Nat → Env → Expr → M Val
     | .arrLit es => do pure (.arr (← evalArgs ctx fuel env es))
     | .enumLit t v => pure (.enum t v)
     | .lam ps r body => do
-      let s ← get
-      set { s with clos := s.clos.push ⟨ps, r, body, env⟩ }
-      pure (.clo s.clos.size)
+      let id ← modifyGet fun s => (s.clos.size, { s with clos := s.clos.push ⟨ps, r, body, env⟩ })
+      pure (.clo id)
     | .catchDefault e d => do
       match ← evalE ctx fuel env e with
       | .res true v => pure v
